@@ -124,12 +124,15 @@ type C15Org struct {
 	// Others are encoded after Org and before anything is decoded (a batch, as when several organisms are handed over
 	// at once): the encoded form of one organism is a value of its own
 	Others []OrgSpec `json:"others,omitempty"`
+	// UsedReceiver: the bytes are decoded into organism values that already hold another genome with the same genome id
+	// (an organism updated from the wire) instead of into fresh values
+	UsedReceiver bool `json:"decode_into_used_organisms,omitempty"`
 }
 
 func genC15Org() *rapid.Generator[C15Org] {
 	og := genOrgSpec()
 	return rapid.Custom(func(t *rapid.T) C15Org {
-		c := C15Org{Org: og.Draw(t, "organism")}
+		c := C15Org{Org: og.Draw(t, "organism"), UsedReceiver: rapid.IntRange(0, 2).Draw(t, "used receiver") == 0}
 		n := rapid.IntRange(0, 3).Draw(t, "others")
 		for i := 0; i < n; i++ {
 			c.Others = append(c.Others, og.Draw(t, "other"))
@@ -138,8 +141,11 @@ func genC15Org() *rapid.Generator[C15Org] {
 	})
 }
 
-func compareRestoredOrg(spec OrgSpec, org *genetics.Organism, data []byte) error {
+func compareRestoredOrg(spec OrgSpec, org *genetics.Organism, data []byte, receiver *genetics.Organism) error {
 	var back genetics.Organism
+	if receiver != nil {
+		back = *receiver
+	}
 	if err := back.UnmarshalBinary(data); err != nil {
 		return fmt.Errorf("UnmarshalBinary: %v", err)
 	}
@@ -172,7 +178,16 @@ func CheckC15Org(c C15Org, rec *Rec) error {
 		rec.Class("several organisms encoded before the first is decoded")
 	}
 	for i := range specs {
-		if err := compareRestoredOrg(specs[i], orgs[i], encoded[i]); err != nil {
+		var receiver *genetics.Organism
+		if c.UsedReceiver {
+			// an organism holding another genome (a one-gene one) under the same genome id
+			other := GenomeSpec{Id: specs[i].Genome.Id, Traits: []TraitSpec{{Id: 1, Params: make([]float64, 8)}},
+				Nodes: []NodeSpec{{Id: 1, Role: roleInput, Act: 17}, {Id: 2, Role: roleOutput, Act: 4}},
+				Genes: []GeneSpec{{In: 1, Out: 2, W: 0.25, Innov: 1, Mut: 0.25, En: true, Trait: 1}}}
+			receiver, _ = genetics.NewOrganism(-1, other.Build(), 77)
+			rec.Class("decoded into an organism that already holds a genome with the same id")
+		}
+		if err := compareRestoredOrg(specs[i], orgs[i], encoded[i], receiver); err != nil {
 			return fmt.Errorf("organism %d of %d encoded in a row: %v", i, len(specs), err)
 		}
 	}
@@ -270,6 +285,9 @@ type C15Solver struct {
 	Net     NetSpec     `json:"net"`
 	Modular *GenomeSpec `json:"modular,omitempty"`
 	Ops     []NetOp     `json:"ops"`
+	// Other, when present, is another network whose model file is written and read after the model under test was restored
+	// and before the restored solver is used: a restored solver is a value of its own
+	Other *NetSpec `json:"other_model_read_in_between,omitempty"`
 }
 
 func GenC15Solver() *rapid.Generator[C15Solver] {
@@ -287,6 +305,10 @@ func GenC15Solver() *rapid.Generator[C15Solver] {
 		default:
 			g := mod.Draw(t, "modular genome")
 			c.Modular = &g
+		}
+		if rapid.IntRange(0, 2).Draw(t, "second model") == 0 {
+			o := cyc.Draw(t, "other net")
+			c.Other = &o
 		}
 		if c.Modular != nil {
 			for _, n := range c.Modular.Nodes {
@@ -321,6 +343,16 @@ func CheckC15Solver(c C15Solver, rec *Rec) error {
 	if back.NodeCount() != orig.NodeCount() || back.LinkCount() != orig.LinkCount() || back.Id != orig.Id || back.Name != orig.Name {
 		return fmt.Errorf("restored solver has (%d nodes, %d links, id %d, name %q), the original (%d, %d, %d, %q)",
 			back.NodeCount(), back.LinkCount(), back.Id, back.Name, orig.NodeCount(), orig.LinkCount(), orig.Id, orig.Name)
+	}
+	if c.Other != nil {
+		if y, err := (C13Case{Net: *c.Other, Fast: true}).fresh(); err == nil {
+			var buf2 bytes.Buffer
+			if err = y.solver.(*network.FastModularNetworkSolver).WriteModel(&buf2); err == nil {
+				if _, err = network.ReadFMNSModel(bytes.NewReader(buf2.Bytes())); err == nil {
+					rec.Class("another model file read before the restored solver is used")
+				}
+			}
+		}
 	}
 	if c.Modular != nil {
 		rec.Class("modular solver")
